@@ -31,10 +31,11 @@ Step(sch, inp, cfg, m, e) ==
       IF m.pendingIo # "" THEN Fail(m, "C05: source I/O error was swallowed (None returned)")
       ELSE [m EXCEPT !.ended = @ \/ (m.delivered >= Len(inp) /\ m.srcEof)]
     ELSE IF e.res = "err" THEN
-      IF m.ended THEN Fail(m, "C05: an error after None although the source is exhausted (not fused)")
-      ELSE IF m.pendingIo # "" THEN
+      \* a source that fails - even after it had returned 0 bytes - is not an exhausted source: its error must surface
+      IF m.pendingIo # "" THEN
         (IF e.ekind = "io" /\ e.io = m.pendingIo THEN [m EXCEPT !.pendingIo = ""]
          ELSE Fail(m, "C05: source I/O error did not surface as the read error carrying the original error"))
+      ELSE IF m.ended THEN Fail(m, "C05: an error after None although the source is exhausted (not fused)")
       ELSE IF e.ekind = "io" THEN Fail(m, "C05: read error reported although the source did not fail")
       ELSE m
     ELSE Fail(m, "C05: unknown result class " \o e.res)
